@@ -72,7 +72,7 @@ static long vfh_futex(int* uaddr, int op, int val);
 #define VF_OTHERS 1
 #endif
 #ifndef VF_CTX
-#define VF_CTX 1  // symbolic caller context (pool thread or not, inline depth, other pool load)
+#define VF_CTX 0  // caller context, see Scenario
 #endif
 #ifndef VF_WDEPTH
 #define VF_WDEPTH 0  // 1: virtual workers start tasks at a symbolic inline depth in {0,31,32}; 0: at depth 0
@@ -124,6 +124,7 @@ static int32_t g_in[kStages];                // invocations of stage k in progre
 static int32_t g_lim[kStages];               // limit of stage k (as passed: <=0 / huge allowed)
 static bool g_returned;                      // pipeline() has returned / thrown
 static uint32_t g_depth;                     // nesting depth of runOthers
+static uint32_t g_busy;                      // virtual pool workers currently inside a task
 static int32_t g_live;                       // live Item objects
 static uint32_t g_throwA, g_throwB;          // C29: throwing (item*4 + stage) codes, 99 = none
 static int32_t g_firstThrown;                // C29: token of the first exception thrown (-1 none)
@@ -201,6 +202,7 @@ VF_NOINLINE static bool workerStep() {
   int savedDepth = PI::inlineDepth();
   PI::registerPool(g_pool, nullptr, 0);
   PI::inlineDepth() = g_workerDepth;
+  ++g_busy;
   bool ran = false;
 #if VF_CHK_EXC
   bool escaped = false;
@@ -213,6 +215,7 @@ VF_NOINLINE static bool workerStep() {
 #else
   ran = g_pool->tryExecuteNext();
 #endif
+  --g_busy;
   PI::inlineDepth() = savedDepth;
   PI::registerPool(savedPool, savedProd, savedRing);
   return ran;
@@ -220,7 +223,8 @@ VF_NOINLINE static bool workerStep() {
 
 // Other pool threads make progress while the caller is in the middle of a stage invocation.
 VF_NOINLINE static void runOthers() {
-  if (g_depth >= VF_DEPTH) {
+  // a pool of VF_POOL_N threads: at most VF_POOL_N tasks are in progress on pool threads
+  if (g_depth >= VF_DEPTH || g_busy >= VF_POOL_N) {
     return;
   }
   ++g_depth;
@@ -243,7 +247,8 @@ static long vfh_futex(int* uaddr, int op, int val) {
   if (*uaddr != val) {
     return -1;  // EAGAIN
   }
-  bool ran = plkit::workerStep();
+  // (instances where the caller is a pool thread use pools with >= 2 threads)
+  bool ran = plkit::g_busy < VF_POOL_N && plkit::workerStep();
   vf_check(
       ran || *uaddr != val,
       "pipeline() blocks forever: it waits for the generator tasks but no task is queued or running");
@@ -276,6 +281,11 @@ VF_NOINLINE static void stageBody(int k, uint32_t id, uint32_t tag) {
   g_in[k]++;
 #if VF_CHK_LIMIT
   vf_check(g_in[k] <= (g_lim[k] < 1 ? 1 : g_lim[k]), "a stage has more concurrent invocations than its limit");
+#ifdef VF_OVERLAP
+  if (k == VF_OVERLAP && g_in[k] == 2) {
+    vf_reach("two invocations of the stage overlap");
+  }
+#endif
 #endif
   runOthers();
 #if VF_CHK_EXC
@@ -298,10 +308,18 @@ struct Gen {
 #if VF_CHK_DELIVERY || VF_CHK_EXC
     vf_check(!g_returned, "the generator ran after pipeline() had returned");
 #endif
+#if VF_CHK_EXC
+    vf_check(g_firstThrown < 0, "the generator was called again after a stage had thrown");
+#endif
     g_genCalls++;
     g_in[0]++;
 #if VF_CHK_LIMIT
     vf_check(g_in[0] <= (g_lim[0] < 1 ? 1 : g_lim[0]), "the generator has more concurrent invocations than its limit");
+#if defined(VF_OVERLAP) && VF_OVERLAP == 0
+    if (g_in[0] == 2) {
+      vf_reach("two invocations of the stage overlap");
+    }
+#endif
 #endif
     runOthers();
     g_in[0]--;
@@ -429,6 +447,7 @@ struct Scenario {
       g_seed[i] = vf_range_u8(1, 9);
     }
     g_dropMask = VF_FILTER ? vf_range_u32(0, (1u << VF_ITEMS) - 1) : 0;
+    vf_assume(g_dropMask < (1u << g_n));  // (bits of items that are never produced are irrelevant)
     g_lim[0] = limOf(VF_GL);
     g_lim[1] = limOf(VF_L1);
     g_lim[2] = limOf(VF_L2);
@@ -437,17 +456,26 @@ struct Scenario {
     g_firstThrown = -1;
     g_throwA = 99;
     g_throwB = 99;
-#if VF_CTX
-    // the caller of pipeline() is / is not a pool thread, at any inline depth, with any amount of
-    // other work pending in the pool (decides the real inline-vs-queue branches of
-    // ConcurrentTaskSet::schedulePlaced)
-    if (vf_nondet_bool()) {
+    // Caller context (decides the real inline-vs-queue branches of ConcurrentTaskSet::schedulePlaced):
+    // VF_CTX 0 external thread, idle pool; 1 the caller is itself a pool thread (pool-recursive);
+    // 2 pool overloaded by other work (4096 pending tasks): inline whenever the depth allows;
+    // 3 overloaded, caller one frame below the inline depth limit; 4 overloaded, caller at the limit
+    // (inlining refused: everything force-queued); 5 symbolic choice among all of these.
+    uint32_t c = VF_CTX == 5 ? vf_range_u32(0, 4) : (uint32_t)VF_CTX;
+    if (c == 1) {
       dispenso::detail::PerPoolPerThreadInfo::registerPool(&pool, &ptoken, VF_POOL_N > 0 ? 0 : -1);
+      g_busy = 1;  // the caller occupies one of the pool's threads
     }
-    dispenso::detail::PerPoolPerThreadInfo::inlineDepth() = symDepth();
-    extraWork = vf_nondet_bool() ? 0 : 4096;
-    pool.workRemaining_.fetch_add(extraWork, std::memory_order_relaxed);
-#endif
+    if (c >= 2) {
+      extraWork = 4096;
+      pool.workRemaining_.fetch_add(extraWork, std::memory_order_relaxed);
+    }
+    if (c == 3) {
+      dispenso::detail::PerPoolPerThreadInfo::inlineDepth() = dispenso::detail::kMaxInlineDepth - 1;
+    }
+    if (c == 4) {
+      dispenso::detail::PerPoolPerThreadInfo::inlineDepth() = dispenso::detail::kMaxInlineDepth;
+    }
   }
   void restore(ThreadPool& pool) {
     pool.workRemaining_.fetch_sub(extraWork, std::memory_order_relaxed);
